@@ -1,9 +1,9 @@
 (* Oracle of C13.  Reads the same lines as harness/c13_drv.cpp and answers, per line,
      "<answer of the algorithm model> ## <answer of the specification model>"
    ("-" on the right where the specification is evaluated by the plugin on the implementation's output).
-   argv.(1) = largest number of cells for which the certified dense reduction of ReduceExec.v is used for "pers";
+   env C13_CERT_LIMIT = largest number of cells for which the certified dense reduction of ReduceExec.v is used for "pers";
    above it an (uncertified) sparse reduction written here is used, and below it both are run and must agree. *)
-let cert_limit = if Array.length Sys.argv > 1 then int_of_string Sys.argv.(1) else 90
+let cert_limit = try int_of_string (Sys.getenv "C13_CERT_LIMIT") with _ -> 90
 
 let ext_of_string s = match s with "inf" -> PInf | "-inf" -> MInf | _ -> Fin (z_of_string s)
 let string_of_ext = function PInf -> "inf" | MInf -> "-inf" | Fin z -> string_of_z z
